@@ -133,7 +133,18 @@ impl Stringify for Template {
 impl Stringify for Node {
     fn stringify_write<'s, W: FmtWrite>(&self, stringifier: &mut Stringifier<'s, W>) -> FmtResult {
         match self {
-            Node::Text(value) => value.stringify_write(stringifier)?,
+            Node::Text(value) => {
+                // two texts that only a comment kept apart: a `{` ending the first and a `{` (or a binding)
+                // starting the second would be read back as `{{`, so they stay apart
+                let starts_with_brace = match value {
+                    Value::Static { value, .. } => value.starts_with('{'),
+                    Value::Dynamic { .. } => true,
+                };
+                if starts_with_brace && stringifier.last_char == Some('{') {
+                    stringifier.write_str("<!---->")?;
+                }
+                value.stringify_write(stringifier)?
+            }
             Node::Element(element) => element.stringify_write(stringifier)?,
             Node::Comment(..) => {}
             Node::UnknownMetaTag(t) => {
@@ -772,6 +783,10 @@ impl Stringify for Value {
                                 quoted.push_str("&#123;");
                             }
                             stringifier.write_token(&quoted, None, location)?;
+                            if value.ends_with('{') {
+                                // (written as a character reference, but still a `{` for what follows)
+                                stringifier.last_char = Some('{');
+                            }
                             return Ok(());
                         }
                         Expression::ToStringWithoutUndefined { value, location } => {
